@@ -51,6 +51,8 @@ SIGS = {
     'len': [],
     'contains': ['int'],
     'shutdown': [],
+    'to_nx': ['lint'],
+    'to_dot': ['olint'],
     'support': ['int'],
     'is_essential': ['int', 'int'],
 }
@@ -116,9 +118,34 @@ def _conv(kind, a):
     raise ValueError(kind)
 
 
+ASIGS = {
+    'new': ['dnn'], 'declare': ['lint'], 'var': ['int'], 'true': [], 'false': [],
+    'apply': ['str', 'int', 'oint', 'oint'], 'ite': ['int', 'int', 'int'],
+    'let_bool': ['dnb', 'int'], 'let_ref': ['dnn', 'int'], 'let_name': ['dnn', 'int'],
+    'quantify': ['int', 'lint', 'bool'], 'cube': ['dnb'],
+    'find_or_add': ['int', 'int', 'int'], 'support': ['int'], 'count': ['int', 'oint'],
+    'image': ['int', 'int', 'dnn', 'lint', 'bool'],
+    'preimage': ['int', 'int', 'dnn', 'lint', 'bool'],
+    'fapply': ['str', 'int', 'oint'],
+    'eq': ['int', 'int'], 'ne': ['int', 'int'], 'le': ['int', 'int'], 'lt': ['int', 'int'],
+    'low': ['int'], 'high': ['int'], 'succ': ['int'], 'level': ['int'], 'varof': ['int'],
+    'ref': ['int'], 'negated': ['int'], 'len': ['int'], 'int': ['int'], 'drop': ['int'],
+    'gc': [], 'reorder': ['odnn'], 'configure': ['obool'], 'set_last_len': ['oint'],
+    'set_trig': ['oint'], 'copy': ['int', 'int'], 'shutdown': [],
+}
+
+
 def parse_line(line):
     """'<m> <name> args...' -> (m, name, [python args])"""
     toks = line.split()
+    if toks[0].startswith('a'):
+        m, name, args = toks[0], toks[1], toks[2:]
+        if name == 'tape':
+            return m, name, [[[int(x) for x in l] for l in _parse_arg(args[0])]]
+        sig = ASIGS[name]
+        if len(sig) != len(args):
+            raise ValueError(line)
+        return m, name, [_conv(k, _parse_arg(a)) for k, a in zip(sig, args)]
     m, name, args = int(toks[0]), toks[1], toks[2:]
     if name == 'tape':
         return m, name, [[[int(x) for x in l] for l in _parse_arg(args[0])]]
@@ -150,7 +177,7 @@ class Session:
             self.lines.append(f'{m} tape {_impl.fmt_arg(tape)}')
             self.expect.append(None)
         self.lines.append(fmt_line(m, name, args))
-        if self.full and m in self.impl.mgr:
+        if self.full and (m in self.impl.mgr or m in self.impl.amgr):
             self.expect.append(res + '\t' + self.impl.digest(m))
         else:
             self.expect.append(res)
@@ -191,7 +218,8 @@ def replay_impl(lines, full=True):
     try:
         for line in lines:
             if line.startswith('!digest'):
-                m = int(line.split()[1])
+                m = line.split()[1]
+                m = m if m.startswith('a') else int(m)
                 out.append('digest\t' + im.digest(m))
                 continue
             m, name, args = parse_line(line)
@@ -202,7 +230,7 @@ def replay_impl(lines, full=True):
                 _, res, _ = im.run(m, name, *args)
             except KeyError:
                 res = 'err:rejected'
-            if full and m in im.mgr:
+            if full and (m in im.mgr or m in im.amgr):
                 out.append(res + '\t' + im.digest(m))
             else:
                 out.append(res)
